@@ -25,6 +25,7 @@ theorem array_kw_vacuous_obj (C : Ctx) (all : Obj) (k : String) (v : Json) (o : 
 /-- the type built for the schema itself: the value is of the schema's type and every keyword about that type holds -/
 theorem base_ok (N : Names) (R : Rx) (hR : ∀ p x, R.full p x = true → R.search p x = true) (C : Ctx) (hC : C.search = R.search)
     (kvs : Obj) (j : Json) (hd : strDistinct (keys kvs) = true) (hf : fragKws kvs kvs = true)
+    (hne : emptyEnum kvs = false)
     (ty : Option String) (hty : ∀ t, ty = some t → primitiveNames.contains t = true)
     (t0 : Ty) (hb : baseType N kvs (parseKws N kvs) ty = some t0) (hc : conforms R t0 j = true)
     (hone : KnownDefect.oneOfKws C kvs kvs j = true)
@@ -86,7 +87,7 @@ theorem base_ok (N : Names) (R : Rx) (hR : ∀ p x, R.full p x = true → R.sear
       · exact hobj _ v hm (by simp)
       · exact hobj _ v hm (by simp)
     · have ho' : ((ty <|> inferType kvs) == some "object") = false := by simpa using ho
-      obtain ⟨htyp, hcons⟩ := scalar_ok N R kvs j hd hf ty hty ha' ho' t0 hb hc
+      obtain ⟨htyp, hcons⟩ := scalar_ok N R kvs j hd hf hne ty hty ha' ho' t0 hb hc
       refine ⟨htyp, hcons, fun k v hm hk => ?_⟩
       cases hty' : (ty <|> inferType kvs) with
       | some t =>
@@ -107,6 +108,7 @@ theorem base_ok (N : Names) (R : Rx) (hR : ∀ p x, R.full p x = true → R.sear
 /-- `parse_type` once the primitive type is fixed: everything but the `type` member -/
 theorem with_ok (N : Names) (R : Rx) (hR : ∀ p x, R.full p x = true → R.search p x = true) (C : Ctx) (hC : C.search = R.search)
     (kvs : Obj) (j : Json) (hd : strDistinct (keys kvs) = true) (hf : fragKws kvs kvs = true)
+    (hne : emptyEnum kvs = false)
     (ty : Option String) (hty : ∀ t, ty = some t → primitiveNames.contains t = true)
     (T : Ty) (hw : assembleWith N kvs (parseKws N kvs) ty = some T) (hc : conforms R T j = true)
     (hone : KnownDefect.oneOfKws C kvs kvs j = true)
@@ -133,7 +135,7 @@ theorem with_ok (N : Names) (R : Rx) (hR : ∀ p x, R.full p x = true → R.sear
           have := conforms_combine_all R (t0 :: c :: rest) j hc
           exact ⟨this t0 (by simp), fun c' hc' => this c' (List.mem_cons_of_mem _ hc')⟩
       obtain ⟨hbase, hconds⟩ := hparts
-      have hbo := base_ok N R hR C hC kvs j hd hf ty hty t0 hb hbase hone ih1 ihA ihP
+      have hbo := base_ok N R hR C hC kvs j hd hf hne ty hty t0 hb hbase hone ih1 ihA ihP
       refine ⟨hbo.1, fun k v hm hk => ?_⟩
       have hfe := fragKws_mem kvs kvs hf k v hm
       have hfk : fragmentKeywords.contains k = true := by
@@ -162,10 +164,16 @@ theorem obj_ok (N : Names) (R : Rx) (hR : ∀ p x, R.full p x = true → R.searc
   rintro ⟨k, v⟩ hm
   simp only
   unfold assemble at hp
+  by_cases hee : emptyEnum kvs = true
+  · rw [if_pos hee] at hp
+    cases hp
+    simp [Ty.never, conforms, conformsAny] at hc
+  have hnee : emptyEnum kvs = false := by simpa using hee
+  rw [if_neg hee] at hp
   cases hlt : lookup "type" kvs with
   | none =>
     simp only [hlt] at hp
-    have := with_ok N R hR C hC kvs j hd hf none (by intro t ht; cases ht) T hp hc hone ih1 ihA ihP
+    have := with_ok N R hR C hC kvs j hd hf hnee none (by intro t ht; cases ht) T hp hc hone ih1 ihA ihP
     apply this.2 k v hm
     intro hk; subst hk
     rw [lookup_of_mem_distinct kvs hd _ _ hm] at hlt
@@ -183,7 +191,7 @@ theorem obj_ok (N : Names) (R : Rx) (hR : ∀ p x, R.full p x = true → R.searc
         simp [primitiveNames] at hft
         rcases hft with rfl | rfl | rfl | rfl | rfl | rfl | rfl <;> simp
       simp only [hlt, hne, Bool.false_eq_true, if_false] at hp
-      have := with_ok N R hR C hC kvs j hd hf (some t) (by intro t' ht'; cases ht'; simpa using hft) T hp hc hone ih1 ihA ihP
+      have := with_ok N R hR C hC kvs j hd hf hnee (some t) (by intro t' ht'; cases ht'; simpa using hft) T hp hc hone ih1 ihA ihP
       by_cases hk : k = "type"
       · subst hk
         have hv : v = .str t := by
@@ -224,7 +232,7 @@ theorem obj_ok (N : Names) (R : Rx) (hR : ∀ p x, R.full p x = true → R.searc
         obtain ⟨t', rfl, hpt⟩ := hstrs x hx
         simp [strOf] at hxs
         subst hxs
-        have hw := with_ok N R hR C hC kvs j hd hf (some t') (by intro t'' ht''; cases ht''; exact hpt) T' hte hcT' hone ih1 ihA ihP
+        have hw := with_ok N R hR C hC kvs j hd hf hnee (some t') (by intro t'' ht''; cases ht''; exact hpt) T' hte hcT' hone ih1 ihA ihP
         by_cases hk : k = "type"
         · subst hk
           have hv : v = .arr ts := by
